@@ -355,6 +355,10 @@ def s_startswith(ex, st, recv, args, kwargs, cx):
     yield st, ex.o.bool_(z3.PrefixOf(ex.o.s(args[0]), ex.o.s(recv)))
 
 
+def s_endswith(ex, st, recv, args, kwargs, cx):
+    yield st, ex.o.bool_(z3.SuffixOf(ex.o.s(args[0]), ex.o.s(recv)))
+
+
 def s_replace(ex, st, recv, args, kwargs, cx):
     f = ex.w.fun("str_replace_all", "str", "str", "str", "str")
     yield st, ex.o.str_(f(ex.o.s(recv), ex.o.s(args[0]), ex.o.s(args[1])))
@@ -376,7 +380,7 @@ trusted("bytes.hex/bytes.fromhex", "fromhex(hex(b)) == b; fromhex raises ValueEr
 STR_METHODS = {
     ("str", "encode"): s_encode, ("bytes", "decode"): y_decode, ("str", "lower"): s_lower,
     ("str", "upper"): s_upper, ("str", "strip"): s_strip, ("str", "partition"): s_partition,
-    ("str", "rpartition"): s_rpartition, ("str", "startswith"): s_startswith, ("str", "replace"): s_replace,
+    ("str", "rpartition"): s_rpartition, ("str", "startswith"): s_startswith, ("str", "endswith"): s_endswith, ("str", "replace"): s_replace,
     ("bytes", "hex"): y_hex,
 }
 
